@@ -91,6 +91,43 @@ theorem reach_entry (c : ApiCall) : Ctl.entry P c ∈ reach :=
 theorem entry_fact {Q : Ctl → Bool} (h : entries.all Q = true) (c : ApiCall) : Q (Ctl.entry P c) = true :=
   List.all_eq_true.mp h _ (entry_mem c)
 
+/-! ### per call kind -/
+
+/-- the control states of a thread while it executes a call entering at method `m` -/
+def reachM (m : Meth) : List Ctl := expand 2000 [{ stack := [{ body := P m }] }] []
+
+def entryMeths : List Meth := [.subNext, .subError, .subComplete, .subUnsubscribe, .snAdd, .snWait, .subIsClosed]
+
+theorem entry_meth_mem (c : ApiCall) : c.entry ∈ entryMeths := by cases c <;> simp [entryMeths, ApiCall.entry]
+
+theorem reachM_closed : entryMeths.all (fun m => (reachM m).all (fun c =>
+    (reachM m).any (Ctl.beq (nextCtl P c true)) && (reachM m).any (Ctl.beq (nextCtl P c false)))) = true := by
+  decide +kernel
+
+theorem reachM_entries : entryMeths.all (fun m => (reachM m).any (Ctl.beq { stack := [{ body := P m }] })) = true := by
+  decide +kernel
+
+theorem reachM_sub : entryMeths.all (fun m => (reachM m).all (fun c => reach.any (Ctl.beq c))) = true := by
+  decide +kernel
+
+theorem reachM_next {m : Meth} (hm : m ∈ entryMeths) {c : Ctl} (h : c ∈ reachM m) (b : Bool) :
+    nextCtl P c b ∈ reachM m := by
+  have := List.all_eq_true.mp (List.all_eq_true.mp reachM_closed m hm) c h
+  simp only [Bool.and_eq_true] at this
+  cases b
+  · exact mem_of_any_beq this.2
+  · exact mem_of_any_beq this.1
+
+theorem reachM_entry (c : ApiCall) : Ctl.entry P c ∈ reachM c.entry :=
+  mem_of_any_beq (List.all_eq_true.mp reachM_entries _ (entry_meth_mem c))
+
+theorem reachM_reach {m : Meth} (hm : m ∈ entryMeths) {c : Ctl} (h : c ∈ reachM m) : c ∈ reach :=
+  mem_of_any_beq (List.all_eq_true.mp (List.all_eq_true.mp reachM_sub m hm) c h)
+
+/-- a fact decided for every control state of calls entering at `m` -/
+theorem localM {m : Meth} {Q : Ctl → Bool} (h : (reachM m).all Q = true) {c : Ctl} (hc : c ∈ reachM m) : Q c = true :=
+  List.all_eq_true.mp h c hc
+
 theorem effect_ctl {sh sh' : Shared} {t : Tid} {th th0 : Thread} {b : Bool}
     (h : effect sh t th = some (b, sh', th0)) : th0.ctl = th.ctl := by
   unfold effect at h
